@@ -71,11 +71,18 @@ class Corpus(object):
                 self.types.append(Case(sidx, CORPUS_TEXT, name, S.tree(sc, name), getattr(mod, name), tid))
                 tid += 1
             sidx += 1
-        for i in range(n_schemas):
-            g = S.Gen(check.rng, **gen_kwargs)
-            sc = g.schema()
+        gens = []
+        if corpus and gen_kwargs.get('shifts'):
+            gens.append(shift_corpus())
+        for i in range(n_schemas + len(gens)):
+            sc = gens[i] if i < len(gens) else S.Gen(check.rng, **gen_kwargs).schema()
             text = S.to_prophy(sc)
-            nodes, mod = py_impl.compile_prophy(text, self.workdir, 's%d' % i)
+            patch = (lambda src, sc=sc: S.apply_shifts(sc, src)) if S.has_shifts(sc) else None
+            if patch:
+                text += '// python descriptors patched: ' + ', '.join('%s.%s shift=%d' % (d.name, m.name, m.shift) for d in sc.decls if isinstance(d, S.Struct)
+                                                                      for m in d.members if getattr(m, 'shift', 0)) + '\n'
+                check.bump('schema-with-shift')
+            nodes, mod = py_impl.compile_prophy(text, self.workdir, 's%d' % i, patch=patch)
             self.nodes[sidx] = nodes
             self.mods[sidx] = mod
             self.schemas[sidx] = sc
@@ -94,12 +101,29 @@ class Corpus(object):
         shutil.rmtree(self.workdir, ignore_errors=True)
 
 
+def shift_corpus():
+    """hand-made schema with shifted counters (`shift=` exists only in the Python descriptors)"""
+    M = S.Member
+    sc = S.Schema()
+    sc.decls.append(S.Struct('ShE', [M('a', 'u8'), M('b', 'u16')]))
+    sc.decls.append(S.Struct('ShA', [M('n', 'u8'), M('x', 'u16', 'dynext', sizer='n', shift=2)]))
+    sc.decls.append(S.Struct('ShB', [M('n', 'i8'), M('x', 'u8', 'dynext', sizer='n', shift=5), M('y', 'u8', 'dynext', sizer='n', shift=5)]))
+    sc.decls.append(S.Struct('ShC', [M('n', 'u8'), M('b', 'byte', 'dynext', sizer='n', shift=1), M('t', 'u32')]))
+    sc.decls.append(S.Struct('ShD', [M('n', 'u8'), M('x', 'ShE', 'dynext', sizer='n', shift=1)]))
+    sc.decls.append(S.Struct('ShF', [M('y', 'u8', 'dyn', shift=3), M('z', 'u64')]))
+    sc.decls.append(S.Struct('ShG', [M('n', 'u8'), M('x', 'u8', 'dynext', sizer='n', shift=254)]))
+    return sc
+
+
 def parse_corpus():
     """the hand-made corpus as an abstract schema (tiny parser of the subset used above)"""
     import re
     sc = S.Schema()
     text = CORPUS_TEXT
-    for m in re.finditer(r'(enum|struct|union)\s+(\w+)\s*\{(.*?)\};', text, re.S):
+    for m in re.finditer(r'(enum|struct|union)\s+(\w+)\s*\{(.*?)\};|typedef\s+(\w+)\s+(\w+)\s*;', text, re.S):
+        if m.group(4):
+            sc.decls.append(S.Typedef(m.group(5), norm_type(m.group(4))))
+            continue
         kind, name, body = m.group(1), m.group(2), m.group(3)
         if kind == 'enum':
             mem = []
